@@ -4,6 +4,7 @@ import math
 from fractions import Fraction
 
 import common as C
+import gen as G
 
 PROP = 'C20'
 THEOREMS = ['gfilt_length_thm', 'gfilt_linear_thm', 'gfilt_const_thm', 'gfilt_bounds_thm', 'gfilt_reverse_thm',
@@ -22,7 +23,7 @@ BATCH = 60
 
 
 def gen(rng, tier):
-    n = 120 if tier == 'quick' else 3000
+    n = G.budget(120) if tier == 'quick' else 3000
     for _ in range(n):
         kind = rng.choice(['gauss1', 'gauss2', 'gauss2', 'rmean', 'rmean'])
         nr = rng.choice([1, 2, 3, 5, 10, 40, 120] if tier == 'quick' else [1, 2, 3, 10, 40, 120, 500])
